@@ -16,6 +16,8 @@ import CalmVerif.Proofs.UnparseDepth
 import CalmVerif.Proofs.UnparseFuel
 import CalmVerif.Proofs.UnparseLines
 import CalmVerif.Proofs.UnparsePos
+import CalmVerif.Proofs.UnparseLineCertPretty
+import CalmVerif.Proofs.UnparseTokEdge
 import CalmVerif.Model.UnparseInst
 
 namespace CalmVerif.Props.C20
@@ -481,6 +483,118 @@ set_option maxRecDepth 1000000 in
 /-- `tokensEdgeB` is needed: after a token that ends with a line terminator the final newline is suppressed -/
 example : linesReport (some "  ") (.node "ES5Program" [("children", .list [stmt (idn "a\n")])])
     = some (false, true, true, true, "a\n;") := by decide
+
+/-! ### every well-typed tree: the two stream hypotheses follow from the slot typing
+
+`wfVal cxPretty` is builder rt's slot typing of ES5 trees (`es5Slot`, Model/TokenAdj.lean; evaluated on every parsed
+tree of the C01 / C02 checks): required children are present and of an admissible kind, list slots hold nodes of
+admissible kinds, token slots hold strings, an elision counts at least one comma.  The first / last / follow
+certificates of C01 are too coarse for line structure (they put `Newline` into the last set of `If`, `For`, `While`, …
+because `Optional a body` is not correlated with `Attr a` being present, so they allow "`Newline` then `Space`").
+Hence an own certificate: `lcertPretty` maps every kind and every line state before the node (mid-line / start of a
+line / start of a line with level change or space pending; unconditional newline owed or not) to the possible states
+after it, computed by fixpoint iteration over Gen.Defs, Gen.Rules and `es5Slot`, attributes tested by an enclosing
+`Optional` known non-empty; its closure is decided by the kernel and is sound for the walk
+(`walkChunks_sound`, Proofs/UnparseTyped.lean, by induction on the walk). -/
+
+open TokenAdj in
+/-- D obligation: the line-structure certificate is closed under every definition (each claim "kind K from state s
+ends in one of E" is reproduced by running K's definition symbolically, children looked up in the certificate, no
+token ever printed on a dirty line), and a program that starts at the start of a line ends at the start of a line
+with no unconditional newline owed.  Breaks when a definition, the layout table or `es5Slot` changes this. -/
+theorem line_certificate_closed :
+    lcertClosed lxPretty Gen.Defs.definitions = true ∧
+    lcertOf lcertPretty "ES5Program" (.fresh, false) = some [(.fresh, false)] :=
+  ⟨lcertPretty_closed, lcertPretty_program⟩
+
+open TokenAdj in
+/-- the hypothesis `lineStartsStable` of `pretty_lines_indented` holds for every well-typed node of any kind -/
+theorem typed_line_starts_stable (indent : Option String) (K : String) (attrs : List (String × Val))
+    (chunks : List Chunk)
+    (hwf : wfVal cxPretty (.node K attrs) = true)
+    (hw : walkChunks (prettyCfg indent) (.node K attrs) () = .ok (chunks, ())) :
+    lineStartsStable chunks = true := by
+  obtain ⟨st', h⟩ := pretty_node_scan indent K attrs hwf chunks hw
+  exact lineStartsStable_of_ls chunks false st' h
+
+open TokenAdj in
+/-- the hypothesis `tailSafe` of `pretty_text_ends_with_one_newline` holds for every well-typed program -/
+theorem typed_program_tail_safe (indent : Option String) (attrs : List (String × Val)) (chunks : List Chunk)
+    (hwf : wfVal cxPretty (.node "ES5Program" attrs) = true)
+    (hw : walkChunks (prettyCfg indent) (.node "ES5Program" attrs) () = .ok (chunks, ())) :
+    tailSafe (normalize Gen.Rules.rs_indent.layout (trailing chunks [])) = true :=
+  tailSafe_of_ls indent_table_facts chunks
+    (out_chunkOK (walkChunks_outAny (prettyCfg indent) _ () chunks () hw)) .fresh .fresh
+    (pretty_program_scan indent attrs hwf chunks hw)
+
+open TokenAdj in
+/-- the hypothesis `tokensEdgeB` of both theorems (every printed token is non-empty, does not begin with CR / LF and
+does not end with a line terminator) holds for every well-typed node in which no string value ends with a line
+terminator (`valAll endsOK`: a condition on the attribute values of the tree outside the `@…` metadata).
+Non-empty / first character: every printed token has one of the signatures of C01's first sets and follow relation
+(`walkChunks_typed`, builder rt), which contain neither `other` nor `empty` (kernel decision on the certificate).
+Last character: every printed token is a string value of the tree, `","` repeated, or a constant of a definition
+(`walkChunks_out`).  The extra condition is needed: the typing classifies string values by `sig`, which does not look
+at the last character of a string, comment, number or regular-expression spelling. -/
+theorem typed_tokens_edge (indent : Option String) (K : String) (attrs : List (String × Val))
+    (chunks : List Chunk)
+    (hwf : wfVal cxPretty (.node K attrs) = true)
+    (he : valAll endsOK anyStr (.node K attrs) = true)
+    (hw : walkChunks (prettyCfg indent) (.node K attrs) () = .ok (chunks, ())) :
+    tokensEdgeB chunks = true :=
+  tokensEdgeB_of_tree indent K attrs hwf he chunks hw
+
+open TokenAdj in
+/--
+`pretty_lines_indented_typed` (2): for EVERY well-typed node (`wfVal cxPretty`, any kind: a program, a statement,
+an expression) in which no string value ends with a line terminator, printed by
+`pretty_printer(indent_str=indent)` with a white-space indent string: every line that starts with a token consists,
+before that token, of exactly the indentation string × the structural depth of that token, and the Indentator level
+is 0 again at the end.  All hypotheses are decidable conditions on the TREE and the indent string; no hypothesis on
+the chunk stream is left (`hw` only names the result of the walk).
+-/
+theorem pretty_lines_indented_typed (indent : Option String) (K : String) (attrs : List (String × Val))
+    (chunks : List Chunk)
+    (hwf : wfVal cxPretty (.node K attrs) = true)
+    (he : valAll endsOK anyStr (.node K attrs) = true)
+    (hw : walkChunks (prettyCfg indent) (.node K attrs) () = .ok (chunks, ()))
+    (hi : indentOK (effIndent hdataGen indent) = true) :
+    checkLines (effIndent hdataGen indent) (flushAll (prettyCfg indent) chunks none [] 0).1
+        (printingDepths chunks 0) (some []) = true ∧
+    (flushAll (prettyCfg indent) chunks none [] 0).2 = 0 :=
+  pretty_lines_indented indent (.node K attrs) chunks hw hi
+    (typed_tokens_edge indent K attrs chunks hwf he hw)
+    (typed_line_starts_stable indent K attrs chunks hwf hw)
+
+open TokenAdj in
+/--
+`pretty_text_ends_with_one_newline_typed` (3): the text printed for EVERY well-typed program in which no string value
+ends with a line terminator ends with exactly one newline (or is empty).  Tree-level hypotheses only.
+-/
+theorem pretty_text_ends_with_one_newline_typed (indent : Option String) (attrs : List (String × Val))
+    (chunks : List Chunk)
+    (hwf : wfVal cxPretty (.node "ES5Program" attrs) = true)
+    (he : valAll endsOK anyStr (.node "ES5Program" attrs) = true)
+    (hw : walkChunks (prettyCfg indent) (.node "ES5Program" attrs) () = .ok (chunks, ()))
+    (hi : indentOK (effIndent hdataGen indent) = true) :
+    EndsWithOneNewline (charsOf (flushAll (prettyCfg indent) chunks none [] 0).1) :=
+  pretty_text_ends_with_one_newline indent attrs chunks hw hi
+    (typed_tokens_edge indent "ES5Program" attrs chunks hwf he hw)
+    (typed_program_tail_safe indent attrs chunks hwf hw)
+
+set_option maxRecDepth 1000000 in
+/-- non-vacuity: the nested switch program above satisfies both tree hypotheses; the two witnesses for the necessity
+of `lineStartsStable` and `tailSafe` are not well-typed (a `case` clause in expression position, a `Comments` node in
+statement position) and the witness for `tokensEdgeB` has a string value that ends with a line terminator: the tree
+hypotheses are what excludes them -/
+example :
+    TokenAdj.wfVal TokenAdj.cxPretty switchTree = true ∧ valAll endsOK anyStr switchTree = true ∧
+    TokenAdj.wfVal TokenAdj.cxPretty (.node "ES5Program" [("children", .list [
+      stmt (.node "Case" [("elements", .list [printsNothing, printsNothing]), ("expr", idn "a")])])]) = false ∧
+    TokenAdj.wfVal TokenAdj.cxPretty
+      (.node "ES5Program" [("children", .list [stmt (idn "a"), printsNothing, printsNothing])]) = false ∧
+    valAll endsOK anyStr (.node "ES5Program" [("children", .list [stmt (idn "a\n")])]) = false := by
+  decide
 
 /-! ### the fuel of the walk -/
 
